@@ -504,7 +504,7 @@ class Knobs:
         self.caller_in_block = False      # `caller.x()` directly inside an anonymous block
         self.nested_buffered_cached = True    # inline def with buffered+cached (mako ignored `buffered` there before ec9a6d2)
         self.loop_in_call_expr = False    # `loop` in a <%call expr>: not seen by mako's LoopVariable (C03 matter)
-        self.loop_in_call_body = False    # `loop` used in a <%call> body/def under a `% for` whose scope has no LoopStack
+        self.loop_in_call_body = True     # `loop` used only in a <%call> body/def under a `% for` (NameError '__M_loop' before bca4969)
         self.probe = True
         for k, v in kw.items():
             assert hasattr(self, k), k
